@@ -421,6 +421,16 @@ def posteriors(real, tier):
             hll = real.HierarchicalLogLikelihood(lls, pop, covariates=cov)
             prior = pints.ComposedLogPrior(*[pints.LogNormalLogPrior(0.0, 0.1) for _ in range(hll.n_parameters(exclude_bottom_level=True))])
             out.append(('HierarchicalLogPosterior(%s, %d individuals)' % (kd, n_ids), real.HierarchicalLogPosterior(hll, prior)))
+    # filter posteriors publish the population-level entries FIRST (then the simulated individuals' parameters and noise realisations)
+    for kd, free_sigma in [((('G', 1, 0), ('P', 1, 0)), True), ((('P', 1, 0), ('Ln', 1, 0), ('H', 1, 0)), False), ((('G', 2, 0),), True)]:
+        n_s, n_obs, times = 2, 2, [2.0, 1.0, 3.0]
+        lay = c02.Layout(kd, n_s)
+        pop = c02.build_model(real, kd, n_s)
+        data = np.random.default_rng(3).uniform(2.0, 6.0, (4, n_obs, len(times)))
+        n_top = lay.n_top + (n_obs if free_sigma else 0)
+        prior = pints.ComposedLogPrior(*[pints.LogNormalLogPrior(0.0, 0.1) for _ in range(n_top)])
+        fp = real.PopulationFilterLogPosterior(real.GaussianFilter(data), times, c16.native_toy(n_obs, lay.D)(), pop, prior, sigma=None if free_sigma else [0.5] * n_obs, n_samples=n_s)
+        out.append(('PopulationFilterLogPosterior(%s, %s noise scales)' % (kd, 'free' if free_sigma else 'fixed'), fp))
     ll = toy_ll(real, 2, 'only one')
     out.append(('LogPosterior(3 parameters, id set)', real.LogPosterior(ll, pints.ComposedLogPrior(*[pints.LogNormalLogPrior(0.0, 0.1) for _ in range(3)]))))
     ll = toy_ll(real, 2, None)
@@ -636,15 +646,18 @@ def bounded(rec):
                 if min(abs(v - o) for o in ok) > 1e-3:
                     return 'PosteriorPredictiveModel with param_map %s: sample %.4f is not a measurement at a posterior draw of the mapped variables (%s)' % (maps, v, sorted(ok))
             return None
-        ppm = real.PosteriorPredictiveModel(pm, ds)
-        df = ppm.sample([1.0], n_samples=6, individual='c', seed=4)
-        vals = np.asarray(df['Value'], dtype=float)
-        ok = set()
-        for c, d in itertools.product(range(2), range(3)):
-            ok.add(round(0.1 * tag[c, d, 2] + 7.0 * (100 + tag[c, d, 2]) + 5.0, 6))
-        for v in vals:
-            if min(abs(v - o) for o in ok) > 6 * 1.2:
-                return 'PosteriorPredictiveModel(individual c): sample %.4f is not a measurement around any posterior draw of individual c (%s)' % (v, sorted(ok))
+        # one posterior predictive model asked for several individuals in turn (also None = the first individual, and an individual a
+        # second time): every call draws from the posterior of the individual named in *that* call (negligible measurement noise)
+        dss = xr.Dataset({names[0]: (('chain', 'draw', 'individual'), 0.1 * tag), names[1]: (('chain', 'draw', 'individual'), 100 + tag), names[2]: (('chain', 'draw'), 1e-6 + 0 * tag[:, :, 0]),
+                          'unrelated': (('chain', 'draw'), -tag[:, :, 0])}, coords={'chain': [0, 1], 'draw': [0, 1, 2], 'individual': inds})
+        ppm = real.PosteriorPredictiveModel(pm, dss)
+        for call, who in enumerate(['c', 'a', None, 'b', 'c']):
+            df = ppm.sample([1.0], n_samples=6, individual=who, seed=4 + call)
+            j = inds.index(who) if who is not None else 0
+            ok = {round(0.1 * tag[c, d, j] + 7.0 * (100 + tag[c, d, j]) + 5.0, 6) for c, d in itertools.product(range(2), range(3))}
+            for v in np.asarray(df['Value'], dtype=float):
+                if min(abs(v - o) for o in ok) > 1e-3:
+                    return 'PosteriorPredictiveModel: call %d asks for individual %r; sample %.4f is not a measurement at any posterior draw of that individual (%s)' % (call + 1, who, v, sorted(ok))
         return None
     rec.native_check('optimisation+sampling.run+read.back', ['chi._inference.OptimisationController.run', 'chi._inference.SamplingController.run', 'chi._inference.compute_pointwise_loglikelihood',
                                                              'chi._predictive_models.PosteriorPredictiveModel.sample'], cases, one,
